@@ -323,6 +323,11 @@ theorem value_stable {s : State} (hw : WF s) {l : Nat} (hl : l < s.nLayers) (op 
           rw [e1]
           exact value_afterLeave (s := { s with agents := s.agents.filter (·.1 ≠ a) }) hw0 hl hno c0 c
   | empties => rfl
+  | gridSet n =>
+    simp only [step]; unfold gridSet
+    split
+    · rfl
+    · split <;> rfl
   | nbhdMask k geom torus c' ic r =>
     simp only [step]; unfold nbhdMask
     split
@@ -413,6 +418,7 @@ theorem nLayers_step (s : State) (op : Op) : s.nLayers ≤ (step s op).1.nLayers
   | remove a => exact Nat.le_of_eq (sameShape_remove ..).nLayers.symm
   | empties => exact Nat.le_refl _
   | nbhdMask k geom torus c ic r => exact Nat.le_of_eq (sameShape_nbhdMask ..).nLayers.symm
+  | gridSet n => exact Nat.le_of_eq (sameShape_gridSet ..).nLayers.symm
   | select ms oe conds exts save =>
     simp only [step]
     split
@@ -521,6 +527,7 @@ theorem shapes_run (t : State) (os : List Op) : (run t os).1.dims = t.dims ∧
       | remove a => exact ⟨(sameShape_remove ..).dims, fun k _ => congrArg (fun f => (f k).dims) (sameShape_remove ..).layers⟩
       | empties => exact ⟨rfl, fun _ _ => rfl⟩
       | nbhdMask k geom torus c ic r => exact ⟨(sameShape_nbhdMask ..).dims, fun k' _ => congrArg (fun f => (f k').dims) (sameShape_nbhdMask ..).layers⟩
+      | gridSet n => exact ⟨(sameShape_gridSet ..).dims, fun k' _ => congrArg (fun f => (f k').dims) (sameShape_gridSet ..).layers⟩
       | select ms oe conds exts save =>
         simp only [step]
         split
@@ -530,5 +537,104 @@ theorem shapes_run (t : State) (os : List Op) : (run t os).1.dims = t.dims ∧
           · split <;> exact ⟨rfl, fun _ _ => rfl⟩
     refine ⟨a.trans hstep.1, fun k hk => ?_⟩
     rw [b k (Nat.lt_of_lt_of_le hk (nLayers_step t op)), hstep.2 k hk]
+
+/-! ### the grid object's own attributes change only by `grid.<name> = x` -/
+
+theorem writeEmpty_gattrs (s : State) (c : Coord) (v : Int) : (writeEmpty s c v).gattrs = s.gattrs := by
+  unfold writeEmpty
+  split
+  · unfold cellAttrWrite; repeat' split
+    all_goals rfl
+  · rfl
+
+theorem afterLeave_gattrs (s : State) (c : Coord) : (afterLeave s c).gattrs = s.gattrs := by
+  unfold afterLeave
+  repeat' split
+  all_goals first | rfl | exact writeEmpty_gattrs ..
+
+theorem cellAttrWrite_gattrs (s : State) (n : String) (c : Coord) (v : Int) :
+    (cellAttrWrite s n c v).gattrs = s.gattrs := by
+  unfold cellAttrWrite; split <;> rfl
+
+theorem layerSet_gattrs (s : State) (l : Nat) (c : Coord) (v : Int) : (layerSet s l c v).1.gattrs = s.gattrs := by
+  unfold layerSet; repeat' split
+  all_goals rfl
+
+theorem modifyCell_gattrs (s : State) (l : Nat) (c : Coord) (f : Option (Int → Int)) :
+    (modifyCell s l c f).1.gattrs = s.gattrs := by
+  unfold modifyCell; repeat' split
+  all_goals rfl
+
+theorem cellSet_gattrs (s : State) (n : String) (c : Coord) (v : Int) : (cellSet s n c v).1.gattrs = s.gattrs := by
+  unfold cellSet
+  split
+  · split
+    · rfl
+    · split
+      · rfl
+      · exact cellAttrWrite_gattrs ..
+  · split
+    · rfl
+    · dsimp only
+      split <;> rfl
+
+theorem setCells_gattrs (s : State) (l : Nat) (v : Int) (cond : Option (Int → Bool)) :
+    (setCells s l v cond).1.gattrs = s.gattrs := by
+  unfold setCells; repeat' split
+  all_goals rfl
+
+theorem setCellsV_gattrs (s : State) (l : Nat) (x : Val) (cond : Option (Int → Bool)) :
+    (setCellsV s l x cond).1.gattrs = s.gattrs := by
+  unfold setCellsV; repeat' split
+  all_goals first | rfl | exact setCells_gattrs ..
+
+/-- only `grid.<name> = x` changes the grid object's own attributes -/
+theorem step_gattrs (s : State) (op : Op) :
+    (step s op).1.gattrs = s.gattrs ∨
+    ∃ m, op = .gridSet m ∧ s.named? m = none ∧ (step s op).1.gattrs = m :: s.gattrs := by
+  cases op
+  case cellSet n c w => exact Or.inl (cellSet_gattrs ..)
+  case setCells l w cond => cases w <;> simp only [step] <;> first | exact Or.inl (setCells_gattrs ..) | exact Or.inl (setCellsV_gattrs ..)
+  case gridSet m =>
+    simp only [step]; unfold gridSet
+    split
+    · exact Or.inl rfl
+    · split
+      · exact Or.inl rfl
+      · next _ hn =>
+        right
+        refine ⟨m, rfl, ?_, rfl⟩
+        cases hx : s.named? m <;> simp_all
+  all_goals left
+  all_goals simp only [step]
+  all_goals try rfl
+  all_goals
+    first
+    | (unfold create; repeat' split) <;> rfl
+    | (unfold newLayer; repeat' split) <;> rfl
+    | (unfold attach; repeat' split) <;> rfl
+    | (unfold detach; repeat' split) <;> rfl
+    | (unfold layerSet; repeat' split) <;> rfl
+    | (unfold cellSet; repeat' split) <;> first | rfl | exact cellAttrWrite_gattrs ..
+    | (unfold cellSet2; repeat' split) <;> first | rfl | exact layerSet_gattrs ..
+    | (unfold setCells; repeat' split) <;> rfl
+    | (unfold setCellsV; repeat' split) <;> rfl
+    | (unfold setFrom; repeat' split) <;> rfl
+    | (unfold modifyCells; repeat' split) <;> rfl
+    | (unfold modifyCellsT; repeat' split) <;> rfl
+    | (unfold modifyU modifyCellsT; repeat' split) <;> rfl
+    | (unfold modifyCell; repeat' split) <;> rfl
+    | (unfold modifyCellU; repeat' split) <;> first | rfl | exact modifyCell_gattrs ..
+    | (unfold grab; repeat' split) <;> rfl
+    | (unfold fromData; repeat' split) <;> rfl
+    | (unfold hset; repeat' split) <;> rfl
+    | (unfold nbhdMask; repeat' split) <;> rfl
+    | (unfold place; repeat' split) <;> first | rfl | exact writeEmpty_gattrs ..
+    | (unfold remove; repeat' split) <;> first | rfl | exact afterLeave_gattrs ..
+    | (unfold move; repeat' split) <;> first | rfl | exact (writeEmpty_gattrs ..).trans (afterLeave_gattrs ..)
+    | (repeat' split) <;> rfl
+    | skip
+
+theorem run_cons_fst (s : State) (op : Op) (ops : List Op) : (run s (op :: ops)).1 = (run (step s op).1 ops).1 := rfl
 
 end Mesa.Layers
